@@ -271,6 +271,18 @@ def gen_cases(seed, tier, unsafe_share=True):
             src = 'bytes:' + (rand_bytes(rng, 4096 if mx >= 60 else 600).hex() or '-')
         cases.append(spec('g%d' % k, v, mn, mx, rate, unsafe, ext, buf, muts, src))
         k += 1
+    # a used generator: the same kind of case after earlier (unrecorded) calls on the same object - every suite that reads the
+    # trace (candidate sets, simulated state against the reference machine, oracles) must see what a fresh generator shows
+    nwarm = 150 if tier == 'quick' else 1200
+    for i in range(nwarm):
+        v = i % 6
+        mn, mx = rng.choice([(60, 300), (20, 40), (5, 9), (100, 101)])
+        muts = [] if rng.below(2) else [m for m in SAFE_MUTS if rng.below(3) == 0]
+        src = 'seed:%d' % rng.below(1 << 32) if rng.below(2) else 'bytes:' + (rand_bytes(rng, 600).hex() or '-')
+        pre = rng.choice([['seed:%d' % rng.below(1 << 32)], ['bytes:' + (rand_bytes(rng, 300).hex() or '-')],
+                          ['seed:%d' % rng.below(1 << 32), 'r'], ['seed:%d' % rng.below(1 << 32), 'bytes:' + (rand_bytes(rng, 200).hex() or '-')], [src]])
+        cases.append(spec('u%d' % k, v, mn, mx, RATES['0.5'], 0, int(rng.below(4) == 0), int(rng.below(4) == 0), muts, src) + ' pre=' + '+'.join(pre))
+        k += 1
     # exhaustive short fuzzer inputs, every protocol
     lens = [0, 1] if tier == 'quick' else [0, 1, 2]
     for v in range(6):
@@ -359,6 +371,26 @@ def generated_paths():
             al = [a.replace('EMPTY_LIST', 'MARK;LIST').replace('EMPTY_DICT', 'MARK;NONE;NONE;DICT').replace('EMPTY_TUPLE', 'MARK;TUPLE') for a in al if 'TUPLE2' not in a and 'APPENDS' not in a]
         for a in al:
             lines.append('v=%d path=%s' % (v, a))
+    # strings at the ends of their length range through the sequence mutators at rate 1 (gate draw 0, every strategy),
+    # followed by spare entropy of several shapes (`tail=`): an emitter or mutator that draws once more than the model
+    # reads it from there
+    strs = {0: ['STRING', 'UNICODE'], 1: ['STRING', 'UNICODE', 'BINSTRING', 'SHORT_BINSTRING', 'BINUNICODE'],
+            3: ['BINBYTES', 'SHORT_BINBYTES', 'BINUNICODE'], 4: ['SHORT_BINUNICODE', 'BINUNICODE8', 'BINBYTES8', 'SHORT_BINBYTES'], 5: ['BYTEARRAY8', 'SHORT_BINUNICODE']}
+    for v, ops in strs.items():
+        for m in ('stringlen', 'character', 'stringlen,character'):
+            for tail in ('07' * 24, 'ff' * 24, '08' * 24, '0a' * 24):
+                items = []
+                for o in ops:
+                    for ln in ('1d', '1e', '1f', '00', '01'):
+                        for strat in ('00', '01', '02'):
+                            items.append('%s:%s%s%s%s' % (o, ln, '00' * (int(ln, 16) % 32), '00' * 8, strat))
+                for o in ops:
+                    # the same as the LAST step, so that the spare entropy directly follows it
+                    for strat in ('00', '01', '02'):
+                        lines.append('v=%d muts=%s rate=3ff0000000000000 tail=%s path=NONE;%s:1f%s%s%s' % (v, m, tail, o, '00' * 31, '00' * 8, strat))
+                        lines.append('v=%d muts=%s rate=3ff0000000000000 tail=%s path=NONE;%s:1e%s%s%s' % (v, m, tail, o, '00' * 30, '00' * 8, strat))
+                if tail == '07' * 24:
+                    lines.append('v=%d muts=%s rate=3ff0000000000000 path=%s' % (v, m, ';'.join(items)))
     for v in (2, 5):
         ext = ['EXT1:00', 'EXT1:01', 'EXT1:fe', 'EXT1:ff', 'EXT2:0000', 'EXT2:0100', 'EXT2:feff', 'EXT2:ffff', 'EXT4:00000000', 'EXT4:01000000',
                'EXT4:fdffff7f', 'EXT4:feffff7f', 'EXT4:ffffff7f', 'EXT4:00000080', 'EXT4:feffffff', 'EXT4:ffffffff']
@@ -460,9 +492,15 @@ def run_c07(seed, tier, log):
     orders = {'reversed/1-thread': (list(reversed(cases)), 1),
               'shuffled/3-threads': (sorted(cases, key=lambda c: hashlib.md5((c + str(seed)).encode()).hexdigest()), 3),
               'by-protocol-descending/16-threads': (sorted(cases, key=lambda c: -int(re.search(r' v=(\d)', c).group(1))), 16)}
+    # process-wide state (a cache filled by whichever generator comes first) shows only against a run with another
+    # history: oldest protocol first on one thread, and every case in a PROCESS OF ITS OWN (no history at all)
+    orders['by-protocol-ascending/1-thread'] = (sorted(cases, key=lambda c: int(re.search(r' v=(\d)', c).group(1))), 1)
+    orders['isolated: one process per case'] = (cases, 16)
     if tier == 'quick':
-        # keep the quick tier short: every 2nd case for the single-threaded run
+        # keep the quick tier short: every 2nd / 3rd case for the single-threaded runs, every 3rd for the isolated one
         orders['reversed/1-thread'] = (orders['reversed/1-thread'][0][::2], 1)
+        orders['by-protocol-ascending/1-thread'] = (orders['by-protocol-ascending/1-thread'][0][1::3], 1)
+        orders['isolated: one process per case'] = (cases[::3], 16)
     props, nruns, t0 = [], 0, time.time()
     for name, (cs, th) in orders.items():
         cpath = os.path.join(d, 'cases.txt')
@@ -470,7 +508,7 @@ def run_c07(seed, tier, log):
             f.write('\n'.join(cs) + '\n')
         rpath = os.path.join(d, 'results.txt')
         with open(rpath, 'w') as f:
-            p = subprocess.run([HBIN, 'results', cpath, str(th)], stdout=f, stderr=subprocess.PIPE, env=ENV, timeout=3000, text=True)
+            p = subprocess.run([HBIN, 'isolated' if name.startswith('isolated') else 'results', cpath, str(th)], stdout=f, stderr=subprocess.PIPE, env=ENV, timeout=3000, text=True)
         if p.returncode != 0:
             raise Infra('harness results failed: %s' % p.stderr[-2000:])
         hs = result_hashes(rpath)
@@ -543,11 +581,34 @@ def run_c12(seed, tier, log):
             rare = sorted(((c, voc[v].get(b, '?'), f) for b, (f, c) in seen.items()))[:3]
             samples.append(dict(protocol=v, flags=(ext, buf), seeds=nn, distinct_opcodes=len(seen),
                                 rarest=[dict(opcode=nm, seeds_containing=c, first_seed=f) for c, nm, f in rare]))
-    res = dict(ok=[], diffs=[], props=props, stats={}, ncases=total, okn=total, nops=total, specs={}, samples=samples)
+    # directed: the level-F witness inputs (Properties/C12.v: the model's output on them contains the opcode), default settings,
+    # through generate_from_arbitrary on the implementation - deterministic, one input per (protocol, flags, FRAME coin, opcode)
+    p = subprocess.run([DRIVER, 'witness'], stdout=subprocess.PIPE, stderr=subprocess.PIPE, text=True, env=ENV, timeout=600)
+    if p.returncode != 0:
+        raise Infra('driver witness failed: ' + p.stderr[-1000:])
+    wcases = [l for l in p.stdout.splitlines() if l.startswith('id=w.')]
+    wspecs = dict((re.search(r'\bid=(\S+)', c).group(1), c) for c in wcases)
+    for l in p.stdout.splitlines():
+        if l.startswith('NOWITNESS'):
+            props.append({'id': 'nowitness-' + '-'.join(l.split()[1:]), 'prop': 'C12', 'detail': 'the model cannot compile its witness path: ' + l})
+    os.makedirs(os.path.join(BUILD, 's6tmp'), exist_ok=True)
+    wp = os.path.join(d, 'witness_results.txt')
+    open(wp, 'w').write(library_bytes(wcases))
+    q = subprocess.run([DRIVER, 'oracles', wp], stdout=subprocess.PIPE, stderr=subprocess.STDOUT, text=True, env=ENV, timeout=3000)
+    wver = parse_verdicts(q.stdout)
+    for pr in wver['props']:
+        if pr['prop'] == 'C12':
+            props.append(pr)
+    for dd in wver['diffs']:
+        props.append({'id': dd['id'], 'prop': 'C12', 'detail': 'witness input could not be judged: ' + dd['what'][:200]})
+    os.remove(wp)
+    total += len(wcases)
+    samples.append(dict(witness_inputs=len(wcases), example=wcases[-1][:200] if wcases else ''))
+    res = dict(ok=[], diffs=[], props=props, stats={}, ncases=total, okn=total - len(props), nops=total, specs={}, samples=samples, witness_inputs=len(wcases))
     for pr in props:
-        res['specs'][pr['id']] = pr['id'] + ' (pf-harness census)'
+        res['specs'][pr['id']] = wspecs.get(pr['id'], pr['id'] + ' (pf-harness census)')
     json.dump(res, open(res_path, 'w'))
-    log('c12: census over %d generations, %d (protocol, opcode) pairs missing, %.1fs' % (total, len(props), time.time() - t0))
+    log('c12: census + %d witness inputs, %d generations, %d (protocol, opcode) pairs missing, %.1fs' % (len(wcases), total, len(props), time.time() - t0))
     return res
 
 
@@ -1049,6 +1110,15 @@ def gen_s3_cases(seed, tier):
                 cases.append('id=a%d rate=%s src=bytes:%s ops=%s' % (k, rates[2], '00' * 8 + '%04x' % d + '00' * 10,
                                                                   'mm:%s:%x;mm:%s:%x' % (m, v, m, v)))
                 k += 1
+    # directed: the sequence mutators on every string / byte-string of the pool, gate open (8 zero bytes at rate 1), each
+    # strategy byte, each value of the following draw (cut position, count of extra items, position and replacement)
+    for m in ('stringlen', 'character'):
+        for kind, vals in (('ms', STRS), ('mb', BYTS)):
+            for val in vals:
+                for strat in range(3):
+                    for dr in (range(48) if tier == 'quick' else range(256)):
+                        cases.append('id=a%d rate=%s src=bytes:%s ops=%s:%s:%s' % (k, rates[2], '00' * 8 + '%02x%02x' % (strat, dr) + '61' * 12, kind, m, val or '-'))
+                        k += 1
     for sidx, src in enumerate(srcs):
         ops = [pool[rng.below(len(pool))] for _ in range(nops)]
         cases.append('id=a%d rate=%s src=%s ops=%s' % (k, rates[rng.below(len(rates))], src, ';'.join(ops)))
